@@ -38,7 +38,9 @@ var nonNumericInt = []struct{ class, tok string }{
 	{"non-numeric", "abc"}, {"non-numeric", ""}, {"non-numeric", "12x"}, {"fractional-for-integer", "1.5"},
 	{"overflowing", "99999999999999999999"}, {"overflowing", "-99999999999999999999"}, {"overflowing", "9223372036854775808"},
 }
-var nonNumericFloat = []struct{ class, tok string }{{"non-numeric", "abc"}, {"non-numeric", ""}, {"non-numeric", "1.5.2"}, {"non-numeric", "1,5"}}
+var nonNumericFloat = []struct{ class, tok string }{{"non-numeric", "abc"}, {"non-numeric", ""}, {"non-numeric", "1.5.2"}, {"non-numeric", "1,5"},
+	// the exclusive-bound syntax of score RANGES is not a number where a score is required; nor are padded numbers
+	{"non-numeric", "(5"}, {"non-numeric", "(-inf"}, {"non-numeric", "(1.5"}, {"non-numeric", "5("}, {"non-numeric", " 5"}, {"non-numeric", "5 "}}
 var nonNumericBound = []struct{ class, tok string }{{"non-numeric", "abc"}, {"non-numeric", "(abc"}, {"non-numeric", ""}, {"non-numeric", "(("}, {"non-numeric", "("}}
 
 // IllFormed derives, systematically, the ill-formed variants of v that C10
